@@ -65,7 +65,7 @@ CXX_ENTRIES = {
 }
 # at least these many entries must be found per group (a renamed or vanished
 # entry point must not silently shrink the theorem)
-MIN_ENTRIES = {1: 6, 2: 15, 3: 5, 4: 1, 5: 29, 6: 8, 7: 10}
+MIN_ENTRIES = {1: 6, 2: 15, 3: 5, 4: 1, 5: 30, 6: 8, 7: 10}
 
 HANDLER_RE = re.compile(r"^std::_Function_handler<void \(char const\*, rtosc::RtData&\), .*>::_M_invoke\(")
 VIRT_RE = re.compile(r"^(rtosc::RtData|c03::CaptureData)::(reply|broadcast|chain|replyArray|broadcastArray|chainArray|forward)\(")
@@ -312,6 +312,31 @@ def diagnose(G):
     return out
 
 # ---------------------------------------------------------------------------
+def sugar_coverage(sugar_h, sugar_cpp):
+    """Every callback macro of port-sugar.h (r...Cb, r...Cb_, rBOIL*, rSelf, rDummy,
+    rCrossBroadcast ...) must be expanded somewhere in h_C03_sugar.cpp, directly or
+    through another macro.  Returns the list of macros that are not."""
+    src = open(sugar_h, errors="replace").read()
+    src = re.sub(r"\\\n", " ", src)                    # join continuation lines
+    defs = {}
+    for m in re.finditer(r"^[ \t]*#[ \t]*define[ \t]+(\w+)(\([^)]*\))?[ \t]*(.*)$", src, re.M):
+        defs[m.group(1)] = m.group(3)
+    used = set(re.findall(r"\b\w+\b", re.sub(r"//.*", "", open(sugar_cpp, errors="replace").read())))
+    closure, work = set(), [u for u in used if u in defs]
+    while work:
+        x = work.pop()
+        if x in closure:
+            continue
+        closure.add(x)
+        for t in re.findall(r"\b\w+\b", defs[x]):
+            if t in defs and t not in closure:
+                work.append(t)
+    want = [k for k, body in defs.items()
+            if re.match(r"r\w*Cb\w*$", k) or k in ("rSelf", "rDummy", "rCrossBroadcast", "rBOIL_BEGIN", "rBOILS_BEGIN",
+                                                   "rLIMIT", "rCAPPLY", "rAPPLY", "SNIP")]
+    return sorted(k for k in want if k not in closure)
+
+# ---------------------------------------------------------------------------
 # Cross-check of GCC's .ci output against the object code it belongs to: every
 # call / tail-jump in the disassembly of a function that an RT entry can reach
 # must be an edge of the graph (and there must be no more indirect call
@@ -347,10 +372,11 @@ def object_edges(obj):
             t = TARGET_RE.match(arg)
             if t:
                 tgt = parent(t.group(1))
-                if tgt != cur:
+                # a jump to <sym+offset> is a transfer between the hot and cold parts of a
+                # function (objdump names the nearest preceding symbol); a tail call goes
+                # to a function's entry, i.e. to <sym> without offset
+                if tgt != cur and (op == "call" or t.group(2) is None):
                     out[cur][0].add(tgt)
-                elif t.group(2) is None and op == "call":
-                    out[cur][0].add(tgt)          # direct recursion
                 pending = True                    # a relocation may follow (external target)
             continue
         m = RELOC_RE.match(line)
@@ -395,6 +421,8 @@ def objcheck(G, pairs):
                 nt = node(t)
                 if nt == nf and nt is not None:
                     continue
+                if t.startswith(".text"):
+                    continue                      # section-relative jump into the function's own cold part
                 if nt is None or (nt not in succ and alias.get(nt) not in succ):
                     bad.append("object code of %s calls %s, which is not an edge of the .ci graph" % (G["dem"][nf], t))
             ci_ind = sum(1 for a, s, r in G["sites"] if a == nf)
@@ -501,6 +529,10 @@ def generate(ctx):
         rc, out, err = ctx["sh"](cmd, cwd=sdir, timeout=600)
         if rc != 0:
             raise ctx["BuildError"]("compiling h_C03_sugar.cpp with -fcallgraph-info failed:\n" + err[-3000:])
+    missing = sugar_coverage(os.path.join(ctx["REPO"], "include", "rtosc", "port-sugar.h"), src)
+    if missing:
+        raise ctx["BuildError"]("port-sugar.h defines callback macro(s) %s that harness/h_C03_sugar.cpp does not "
+                                "instantiate: their lambdas would be missing from the call graph" % missing)
     ci = sorted(glob.glob(os.path.join(d, "*.ci")))
     if len(ci) < 20:
         raise ctx["BuildError"]("only %d .ci files next to the cgraph library" % len(ci))
